@@ -187,6 +187,14 @@ type fnExec struct {
 	measure   string
 	pendingWT [][2]interface{}
 	warnings  []string
+	spawns    map[string]*spawnInfo
+}
+
+type spawnInfo struct {
+	ct   *Contract
+	info *calleeInfo
+	args []val
+	in   ssa.Instruction
 }
 
 type retPoint struct {
@@ -325,7 +333,12 @@ func (fx *fnExec) declareUF(u *UFDecl) {
 	fx.ufSeen[u.Name] = true
 	var ps []string
 	for _, p := range u.Params {
-		ps = append(ps, ghostSort(p))
+		srt := ghostSort(p)
+		if strings.HasPrefix(srt, "X_") {
+			fx.d.add("sort:"+srt, "(declare-sort "+srt+" 0)")
+			fx.d.add("zero:"+srt, "(declare-const zero_"+srt+" "+srt+")")
+		}
+		ps = append(ps, srt)
 	}
 	fx.declLines = append(fx.declLines, fmt.Sprintf("(declare-fun %s (%s) %s)", u.Name, strings.Join(ps, " "), ghostSort(u.Result)))
 }
@@ -624,7 +637,7 @@ func newFnExec(g *Gen, fn *ssa.Function, ct *Contract) *fnExec {
 		textCount: map[string]int{}, nodeText: map[token.Pos]string{}, callCount: map[string]int{}, ufSeen: map[string]bool{},
 		assumptionsUsed: map[string]bool{}, calleesUsed: map[string]bool{}, storeCount: map[string]int{},
 		heapElemType: map[string]types.Type{}, heapDepth: map[string]int{},
-		textPos: map[string][]token.Pos{}, usedAnchors: map[*Clause]bool{}, deferArgs: map[*ssa.Defer][]val{}, deferFn: map[*ssa.Defer]val{}}
+		textPos: map[string][]token.Pos{}, usedAnchors: map[*Clause]bool{}, deferArgs: map[*ssa.Defer][]val{}, deferFn: map[*ssa.Defer]val{}, spawns: map[string]*spawnInfo{}}
 	if fn.Pkg != nil {
 		fx.pkg = fn.Pkg.Pkg
 	} else if fn.Parent() != nil && fn.Parent().Pkg != nil {
